@@ -354,7 +354,8 @@ META = {
     "text": "Structural necessary conditions only: offset sign and row, total algorithm dispatch, guarded 16-bit casts, factor dtype, axis "
             "layout agreement between the builder and apply/todense, intra-site order. Breaking any of them breaks the operator (wrong "
             "constant, transposed operator, unreachable algorithm, silent index wrap-around, dropped imaginary parts). Exactness of the "
-            "decomposition for every term table is runtime combinatorics / floating point and is not decided.",
+            "decomposition for every term table is runtime combinatorics / floating point and is not decided."
+            " The builder's layout and the provenance of the local matrices are decided by an abstract run of symbolic_mo_to_numeric_mo / compose_symbolic_mo; the QR shortcut's guard is evaluated over a shape grid.",
     "note": "The apply() contraction side of the layout is decided in C03 (merge-order rule), the contraction kernels in C07/C08.",
     "design_ref": "DESIGN.md 3.5, 3.2 (R4), 4 (C01)",
 }
